@@ -13,6 +13,7 @@ import (
 	"net/netip"
 	"os"
 	"path/filepath"
+	"slices"
 	"sort"
 	"strconv"
 	"strings"
@@ -324,6 +325,7 @@ type dbEnv struct {
 	sink          *auditSink
 	d             *db.DB
 	super         db.Caller
+	callerObjs    map[int]db.Caller
 }
 
 func newDBEnv(dir string) (*dbEnv, error) {
@@ -564,7 +566,17 @@ func (e *dbEnv) exec(callers []DBCaller, st DBStep) stepObs {
 	var o stepObs
 	c := mkCaller(DBCaller{ID: -1})
 	if st.Caller >= 0 && st.Caller < len(callers) {
-		c = mkCaller(callers[st.Caller])
+		// one db.Caller value per caller for the whole history (an embedding program keeps its identities):
+		// a call that rewrites the rules it was shown changes what that caller may do afterwards
+		if e.callerObjs == nil {
+			e.callerObjs = map[int]db.Caller{}
+		}
+		co, ok := e.callerObjs[st.Caller]
+		if !ok {
+			co = mkCaller(callers[st.Caller])
+			e.callerObjs[st.Caller] = co
+		}
+		c = co
 	}
 	e.sink.mu.Lock()
 	e.sink.fx = nil
@@ -594,6 +606,8 @@ func (e *dbEnv) exec(callers []DBCaller, st DBStep) stepObs {
 	kek0 := e.kek.count()
 	name := string(st.Name)
 	var err error
+	var keptList []*api.SecretInfo // what a list call handed out, looked at again after somebody else has listed
+	var keptInfo *api.SecretInfo
 	if st.Overlap && !st.SaveFail && st.Audit == "" {
 		// in the middle of this call (when its first audit record reaches the sink) a fully authorized caller
 		// reads the same secret on another goroutine; this call's own access decision must not notice
@@ -638,11 +652,13 @@ func (e *dbEnv) exec(callers []DBCaller, st DBStep) stepObs {
 				for _, in := range infos {
 					o.Res.List = append(o.Res.List, infoToDump(in))
 				}
+				keptList = infos
 			}
 		case "info":
 			var in *api.SecretInfo
 			in, err = e.d.Info(c, name)
 			if err == nil {
+				keptInfo = in
 				o.Res = resObs{Class: "info", Act: uint64(in.ActiveVersion)}
 				for _, v := range in.Versions {
 					o.Res.Vers = append(o.Res.Vers, uint64(v))
@@ -715,6 +731,30 @@ func (e *dbEnv) exec(callers []DBCaller, st DBStep) stepObs {
 		}
 	}
 	e.observeState(&o)
+	// observeState has just listed everything as the superuser through the same handle: what this call's
+	// caller was handed must still say what it said (a result that follows later calls discloses their data)
+	if keptList != nil {
+		var again []secDump
+		for _, in := range keptList {
+			if in != nil {
+				again = append(again, infoToDump(in))
+			}
+		}
+		if !sameDump(again, o.Res.List, true) {
+			o.Res.List = again
+			o.Note += "the list result changed after another caller listed; "
+		}
+	}
+	if keptInfo != nil {
+		again := resObs{Class: "info", Act: uint64(keptInfo.ActiveVersion)}
+		for _, v := range keptInfo.Versions {
+			again.Vers = append(again.Vers, uint64(v))
+		}
+		if again.Act != o.Res.Act || !slices.Equal(again.Vers, o.Res.Vers) {
+			o.Res = again
+			o.Note += "the info result changed after a later call; "
+		}
+	}
 	return o
 }
 
